@@ -57,7 +57,7 @@ Record sess := Sess {
   ifx : N;            (* swIfIndex (for an l2gw session: the access-direction stats entry index) *)
   hfx : N;            (* l2gwHandoffIndex (handoff-direction stats entry index; not checkpointed) *)
   last : c4;          (* lastReported*      *)
-  hw : c4;            (* fix_sent only: lastSent*, the largest values ever sent for the session; otherwise zero *)
+  hw : c4;            (* lastSent* (since 9b87063, fix_sent): the values of the most recent request sent; zero without fix_sent *)
   base : c4;          (* currentBaseline*   *)
   prior : c4;         (* priorDelta*        *)
   pending : bool      (* pendingSessionConfirm *)
@@ -105,9 +105,10 @@ Definition lookup_l2 (sn : l2snap) (i : N) : option (N * N) :=
 Record snaps := Snaps { ifs : snap; l2 : l2snap }.
 
 (* the reading a report is computed from.  g = the session's access type is l2gw.
-   tick (sendAccountingUpdate): an l2gw session reads the access entry (upstream = input) and the handoff entry
-   (downstream = output) of the l2gw segment, present if either entry is; every other session reads the interface
-   table at swIfIndex.  release (handleSessionRelease): the interface table at swIfIndex for EVERY access type. *)
+   An l2gw session reads the access entry (upstream = input) and the handoff entry (downstream = output) of the l2gw
+   segment, present if either entry is — on a tick (sendAccountingUpdate) and, since d95fed1 (fix_l2stop), also for
+   the Stop (handleSessionRelease / fetchReleaseStats); before that the Stop read the interface table at swIfIndex for
+   every access type.  Every other session reads the interface table at swIfIndex. *)
 Definition l2_reading (e : sess) (sn : l2snap) : option c4 :=
   match lookup_l2 sn (ifx e), lookup_l2 sn (hfx e) with
   | None, None => None
@@ -183,7 +184,7 @@ Definition lstep (v : variant) (g : bool) (s : sst) (ev : sev) : sst * list out 
         match cache s with
         | Some e =>
             let (e0, c) := report v g true e sn in
-            (* fix_sent: lastSent := c and checkpoint BEFORE the send, whatever its outcome *)
+            (* fix_sent (9b87063): noteSent - lastSent := c BEFORE the provider call; the checkpoint follows the call's outcome *)
             let e' := if fix_sent v then Sess (ifx e0) (hfx e0) (last e0) c (base e0) (prior e0) (pending e0) else e0 in
             if ok then
               let e'' := Sess (ifx e') (hfx e') c (hw e') (base e') (prior e') (pending e') in   (* advanceLastReported *)
